@@ -4,8 +4,31 @@ from .. import streams_config as sc
 from .common import kv, cases, viol
 
 
+def gen_nested_order():
+    """nested function curves in every listing order (an outer function curve listed BEFORE the function curve nested in it),
+    where a sensor is reachable from the fan only THROUGH the nested curve, plus a curve no fan uses: validation accepts
+    every order, so every order has to run (seed C11l: start-up registered only the sensors a one-pass scan of `curves:`
+    found in use)"""
+    import itertools
+    ops = []
+    base = [{"id": "outer", "function": {"type": "maximum", "curves": ["mid", "leafA"]}},
+            {"id": "mid", "function": {"type": "average", "curves": ["inner"]}},
+            {"id": "inner", "function": {"type": "sum", "curves": ["leafB"]}},
+            {"id": "leafA", "linear": {"sensor": "sa", "min": 30, "max": 70}},
+            {"id": "leafB", "linear": {"sensor": "sb", "min": 20, "max": 60}},
+            {"id": "spare", "linear": {"sensor": "sc", "min": 10, "max": 50}}]
+    for k, perm in enumerate(itertools.permutations(range(5))):
+        if k % 6 != 0:
+            continue
+        curves = [base[i] for i in perm] + [base[5]]
+        cfg = {"sensors": [{"id": "sa", "file": True}, {"id": "sb", "file": True}, {"id": "sc", "file": True}], "curves": curves,
+               "fans": [{"id": "fan", "file": {"path": "/tmp/verif_x"}, "curve": "outer"}], "mode": "644"}
+        ops += sc.case_lines(cfg, run=True, label=f"cfg-nested-order perm={''.join(map(str, perm))}")
+    return ops
+
+
 def gen_cfg(r, tier):
-    ops = sc.gen_config_witnesses() + sc.gen_config_directed()
+    ops = sc.gen_config_witnesses() + sc.gen_config_directed() + gen_nested_order()
     ops += sc.gen_config(r, 250 if tier == "quick" else 6000)
     return ops
 
